@@ -17,8 +17,8 @@ EXPLANATION = (
     "comparison or container sized from the same field). R06.5: char/type tag scorer twins (T6). R06.6: on every path of "
     "predict_tags the stored tag scores are cleared and, when score storing is on, resized to len()."
 )
-THOROUGH_CONFIGS = [C.NO_CHARWISE, C.NO_FIX]
-QUICK_CONFIGS = [C.NO_FIX]
+THOROUGH_CONFIGS = [C.NO_CHARWISE, C.NO_FIX, C.NO_CACHE]
+QUICK_CONFIGS = [C.NO_FIX, C.NO_CHARWISE, C.NO_CACHE]
 NOT_DECIDED = ["numeric sums of tag scores", "suffix-merged tag weights (merge arithmetic)"]
 
 TP = "vaporetto::predictor::TagPredictor::predict"
@@ -38,6 +38,16 @@ def run(chk):
                      ("R06.3", "automaton state vectors prepared before use; predict_tags call shape"), ("R06.4", "model-derived index sanitised"),
                      ("R06.5", "char/type tag scorer twins"), ("R06.6", "tag score storage prepared on every path")):
         chk.rule(rid, txt)
+    # a tag scorer that matches with the longest-match iterator records ONE pattern per end position and relies on suffix-merged
+    # weights; with the all-matches iterator the recorded state is the shortest suffix and the longer tag n-grams are lost (shared with C01)
+    from . import c01 as _c01p
+    chk.rule("R01.4", "tag scorers: daachorse iterator <-> merged weights pairing (shared with C01)")
+    with chk.only(rules={"R01.4"}, keys=lambda k: "BoundaryTag" in k):
+        _c01p.pairing(chk, w)
+    # the bias vector of a token sizes its score buffer (shared with C14's conversion table)
+    from . import c14 as _c14f
+    chk.rule("R14.4", "From<Vec<i32>> for WeightVector keeps a Variable vector unchanged")
+    _c14f.from_variable_identity(chk, w)
     r061(chk, w)
     if chk.config == "W" or w.body("vaporetto::tag_trainer::TagTrainer::train_tag") is not None:
         r062(chk, w)
@@ -56,7 +66,25 @@ def _loops_nested(b):
     return cf, loops, outer, inner
 
 
+def r069(chk, w):
+    """every return of TagPredictor::predict lies behind the category loop: a category with one candidate gets its tag there, with or
+    without scores (a shortcut around the loop leaves the tags of score-less tokens unset)"""
+    chk.rule("R06.9", "TagPredictor::predict: no path returns without having run the category loop")
+    b = C.body(w, TP)
+    cf, loops, outer, inner = _loops_nested(b)
+    if len(outer) != 1:
+        chk.undecided("R06.9", "category-loop", "expected one outer loop in TagPredictor::predict, found %d" % len(outer), site=C.site(b))
+        return
+    h = outer[0]
+    rets = [bl["id"] for bl in b.blocks if not bl["cleanup"] and bl["term"] and bl["term"]["k"] == "return"]
+    # every path entry -> return passes through the loop header
+    ok = bool(rets) and all(cf.must_pass(0, {r}, {h}) for r in rets)
+    chk.ob("R06.9", "predict:returns-behind-category-loop", ok,
+           "TagPredictor::predict can return without entering the loop over the tag categories (header bb%d): single-candidate categories are assigned inside that loop" % h, site=C.site(b, h))
+
+
 def r061(chk, w):
+    r069(chk, w)
     b = C.body(w, TP)
     chk.fn(TP)
     cf, loops, outer, inner = _loops_nested(b)
@@ -189,7 +217,8 @@ def r062(chk, w):
             nz = forms.Normalizer(it, o)
             cls = None
             for s, c in o.cons.items():
-                if s.startswith("ret:") and "::len" in (nz.ret_info.get(s, ("",))[0] or ""):
+                # a length: Vec::len / <[T]>::len, or the slice metadata a slice pattern (`[cand]`) is matched on
+                if (s.startswith("ret:") and "::len" in (nz.ret_info.get(s, ("",))[0] or "")) or s.startswith("len:"):
                     if c[0] == "eq" and c[1][0] == "i":
                         cls = "==%d" % c[1][1]
                     elif c[0] in ("notin", "ival"):
@@ -276,7 +305,29 @@ def r062(chk, w):
     chk.ob("R06.2", "train_tag:loop-found", found, "the per-category training loop of train_tag was not found", site=C.site(b))
 
 
+STATE_WRITERS = {
+    # who may write the automaton state vectors of a sentence: the tag scorer that prepares them for predict_tags, the (tag-less)
+    # cache scorer that parks its window ids there, and the sentence's own reset paths.  Anything else between add_scores and
+    # predict_tags invalidates the `pos < len` contract of the unchecked add_tag_scores
+    "char_pma_states": ("vaporetto::char_scorer::boundary_tag_scorer::CharScorerBoundaryTag::add_scores",),
+    "type_pma_states": ("vaporetto::type_scorer::boundary_tag_scorer::TypeScorerBoundaryTag::add_scores",
+                        "vaporetto::type_scorer::boundary_scorer_cache::TypeScorerBoundaryCache::add_scores"),
+}
+SENTENCE_RESETTERS = ("set_default", "update_raw", "update_tokenized", "update_partial_annotation")
+
+
+def r063_writers(chk, w):
+    fw = C.field_writers(w, C.S, list(STATE_WRITERS))
+    for f, allowed in STATE_WRITERS.items():
+        ok_fns = set(allowed) | {C.S + "::" + m for m in SENTENCE_RESETTERS}
+        extra = sorted(set(fw[f]) - ok_fns)
+        chk.ob("R06.3", "writers:%s" % f, not extra and bool(fw[f]),
+               "Sentence.%s is written (mutable borrow / assignment / move) in %s; only %s and the sentence's own reset paths may touch it: the tag scorers read it unchecked from the positions "
+               "prepared by add_scores" % (f, extra, [a.split("::")[-2] + "::add_scores" for a in allowed]), sample={"field": f, "writers": sorted(fw[f])})
+
+
 def r063(chk, w):
+    r063_writers(chk, w)
     for owner, field, kind in TAGSCORERS:
         fn = owner + "::add_scores"
         b, it, outs = C.run_fn(w, fn)
